@@ -326,5 +326,25 @@ def genGames (seed n : Nat) (rootsFile : String) : IO Unit := do
     r := r4
     out.putStrLn s!"game\t{posText start}\t{" ".intercalate (ms.map Move.text)}"
 
+/-- move-list texts: well-formed lists from playouts, then corrupted ones -/
+def genUciMoves (seed n : Nat) : IO Unit := do
+  let out ← IO.getStdout
+  let mut r := Rng.ofSeed (seed + 1103)
+  for m in Move.quiet E1 G1 :: (MoveFlag.all.map fun f => (⟨⟨52, by decide⟩, ⟨60, by decide⟩, f⟩ : Move)) do
+    out.putStrLn s!"ucimoves\t{m.uci}"
+  for _ in List.range n do
+    let (r1, p) := templatePos r
+    let (r2, len) := r1.below 12
+    let (r3, _, ms) := playout r2 (p.getD startPosition.pos) (len + 1)
+    r := r3
+    let t := " ".intercalate (ms.map Move.uci)
+    out.putStrLn s!"ucimoves\t{t}"
+    let (r4, m1) := mutateText r t.toList
+    let (r5, m2) := mutateText r4 m1
+    r := r5
+    let clean (l : List Char) := String.ofList (l.filter (fun c => c != '\n' && c != '\r'))
+    out.putStrLn s!"ucimoves\t{clean m1}"
+    out.putStrLn s!"ucimoves\t{clean m2}"
+
 end Driver
 end Tcheran
